@@ -110,6 +110,27 @@ def replay_encoding(p):
             except strict.StrictError as se:
                 bad = f'{code.name} of {n} chars: prefix {b[:4].hex()}: {se}'
         return _res(p, bad, {'n': n, 'prefix': b[:4].hex() if b else None}, {'n': n, 'ident': ident})
+    if 'text_len_edges' in ob:
+        TL = [1, 8, 16, 32, 64, 100, 128, 200, 255, 256, 512, 1000, 1024, 4096, 16384, 65536]
+        ci, n = a[0], TL[a[1]] + a[2]
+        ident = ci != 1
+        s = ''.join(chr(65 + (i * 7 + n) % 26) for i in range(n))
+        if ci == 2:
+            from dliswriter.utils.internal.struct_writer import write_struct_ident
+            b, e = _try(write_struct_ident, s)
+        else:
+            b, e = _try(write_struct, RepC.ASCII if ci == 1 else RepC.IDENT, s)
+        if e is not None:
+            bad = '' if (ident and n > 255) else f'text of {n} chars raised {type(e).__name__}: {e}'
+        elif ident and n > 255:
+            bad = f'IDENT of {n} chars accepted; prefix {b[:4].hex()}'
+        else:
+            try:
+                got, pos = (strict.dec_ident if ident else strict.dec_ascii)(b, 0)
+                bad = '' if got == s and pos == len(b) else f'text of {n} chars as {"IDENT" if ident else "ASCII"}: prefix {b[:4].hex()} decodes to {len(got)} chars, {pos} of {len(b)} bytes'
+            except (strict.StrictError, UnicodeDecodeError) as se:
+                bad = f'text of {n} chars as {"IDENT" if ident else "ASCII"}: prefix {b[:4].hex()}: {se}'
+        return _res(p, bad, {'n': n, 'route': ci, 'prefix': b[:4].hex() if b else None}, {'n': n, 'route': ci})
     if 'text_codepoints' in ob:
         CP = [0, 31, 126, 127, 128, 129, 255, 256, 2047, 2048, 65535, 65536, 1114111]
         c = chr(CP[a[1]])
